@@ -17,6 +17,11 @@ pub fn parse_bindings(ctx: &mut Context, s: &str) {
         if b.is_empty() {
             continue;
         }
+        // `!p` / `!`: the binding of prefix p / the default binding is taken out again (Context::remove_ns)
+        if let Some(p) = b.strip_prefix('!') {
+            ctx.remove_ns(if p.is_empty() { None } else { Some(p) });
+            continue;
+        }
         if let Some((p, u)) = b.split_once('=') {
             if p.is_empty() {
                 ctx.add_ns(None, u);
